@@ -52,7 +52,7 @@ Proof.
 Qed.
 
 Lemma class_checked : forall c cd, class_of P c = Some cd ->
-  check_class P c cd = Ok tt /\ forall m md, lookup (c_methods cd) m = Some md -> check_fun P true (Some c) md = Ok tt.
+  check_class P true c cd = Ok tt /\ forall m md, lookup (c_methods cd) m = Some md -> check_fun P true (Some c) md = Ok tt.
 Proof.
   intros c cd H. apply lookup_in in H. pose proof defs_ok as D. rewrite forallb_forall in D.
   unfold check_defs in D. split.
